@@ -38,7 +38,12 @@ def check(ctx):
     res = evaluate(repo, sim)
     ctx.paths += cfg.paths_count(1000)
 
-    loops = [s for s in cfg.stmts if isinstance(s, ast.For)]
+    # the sampling loop: the for-statement(s) whose body reads a distribution
+    loops = [s for s in cfg.stmts if isinstance(s, ast.For) and any(
+        isinstance(x, ast.Call) and isinstance(x.func, ast.Attribute)
+        and x.func.attr in ("init_dist", "sample") for b in s.body for x in ast.walk(b))]
+    loops = [s for s in loops if not any(s is not o and any(s is x for x in ast.walk(o))
+                                         for o in loops)] or loops
     ctx.ob("C17.R2", sim, "simulate has one loop over the distributions", len(loops) == 1,
            detail=f"{len(loops)} loops")
     if len(loops) != 1:
